@@ -1,5 +1,9 @@
 #!/bin/bash
-# run every claimed check of one tier in sequence; prints the summary line of each
+# run every claimed check of one tier in sequence; prints the verdict lines of each and its exit code
 TIER=${1:-quick}
 cd "$(dirname "$0")/.."
-for i in $(seq -w 1 20); do ./check C$i --tier $TIER 2>&1 | grep -E "VIOLATION|CHECK-|evaluations=" ; done
+for i in $(seq -w 1 20); do
+  out=$(./check C$i --tier $TIER 2>&1); rc=$?
+  echo "$out" | grep -E "VIOLATION|KNOWN-FINDING|CHECK-|evaluations=|Traceback|Error" | cut -c1-300
+  echo "C$i $TIER exit=$rc"
+done
